@@ -86,6 +86,8 @@ func init() {
 	mut("C03", "deduct-error-swallowed", txf, "\tif err := bh.Deduct(ctx, t.Auth.Sponsor(), ts, fee); err != nil {\n\t\t// This should never fail for low balance (as we check [CanDeductFee]\n\t\t// immediately before).\n\t\treturn nil, fmt.Errorf(\"failed to deduct tx fee: %w\", err)\n\t}", "\t_ = bh.Deduct(ctx, t.Auth.Sponsor(), ts, fee)", "actions run although the fee was not paid")
 	mut("C03", "checkpoint-inside-loop", txf, "\t\tactionOutput, err := action.Execute(ctx, r, ts, timestamp, t.Auth.Actor(), CreateActionID(t.GetID(), uint8(i)))", "\t\tactionStart = ts.OpIndex()\n\t\tactionOutput, err := action.Execute(ctx, r, ts, timestamp, t.Auth.Actor(), CreateActionID(t.GetID(), uint8(i)))", "only the failing action is rolled back")
 	mut("C03", "result-fee-not-charged-fee", txf, "\t\t\t\tUnits:   units,\n\t\t\t\tFee:     fee,", "\t\t\t\tUnits:   units,\n\t\t\t\tFee:     0,", "failed result reports a fee that was not the one charged")
+	mut("C07", "charged-more-than-computed-fee", txf, "\tif err := bh.Deduct(ctx, t.Auth.Sponsor(), ts, fee); err != nil {", "\tif err := bh.Deduct(ctx, t.Auth.Sponsor(), ts, fee+1); err != nil {", "sponsor charged more than the computed fee")
+	mut("C07", "reported-fee-differs", txf, "\t\tUnits: units,\n\t\tFee:   fee,", "\t\tUnits: units,\n\t\tFee:   fee - 1,", "result reports less than was charged")
 	mut("C16", "signature-error-swallowed", proc, "\terr := sigJob.Wait()\n\tif err != nil {\n\t\treturn fmt.Errorf(\"signatures failed verification: %w\", err)\n\t}", "\terr := sigJob.Wait()\n\tif err != nil {\n\t\tp.metrics.waitSignaturesCount.Inc()\n\t}", "invalid signatures accepted")
 	mut("C16", "signed-bytes-not-unsigned-bytes", proc, "\t\tunsignedTxBytes := tx.UnsignedBytes()", "\t\tunsignedTxBytes := tx.Bytes()", "auth verified over the wrong message")
 	mut("C16", "leftover-batch-dropped", "chain/auth_batch.go", "\t\tfor _, item := range bw.bv.Done() {\n\t\t\ta.job.Go(item)\n\t\t\ta.log.Debug(\"enqueued batch for processing during done\")\n\t\t}", "\t\t_ = bw.bv.Done()", "last partial batch never verified")
